@@ -485,6 +485,25 @@ impl World {
         self.spawn_thread_inner(name, None, f)
     }
 
+    /// Start a further thread of the calling thread's simulated process
+    /// (`std::thread::spawn` in code that runs inside a child).
+    pub(crate) fn spawn_thread_in_process(
+        self: &Arc<World>,
+        c: &Cur,
+        f: Box<dyn FnOnce() + Send + 'static>,
+    ) -> usize {
+        let p = match c.party {
+            Party::Thread(t) => self.lock().threads[t].proc_,
+            Party::Driver => None,
+        };
+        self.lock().event("thread_spawn_in_process", p.map(|x| x as u64 + 1).unwrap_or(0), 0);
+        self.spawn_thread_inner("aux", p, f)
+    }
+
+    pub(crate) fn thread_is_finished(&self, tid: usize) -> bool {
+        matches!(self.lock().threads[tid].state, ThState::Finished)
+    }
+
     fn spawn_thread_inner(
         self: &Arc<World>,
         name: &str,
@@ -507,10 +526,7 @@ impl World {
         };
         let world = self.clone();
         let gate2 = gate.clone();
-        let handle = std::thread::Builder::new()
-            .name(format!("sim-{}", name))
-            .stack_size(1 << 20)
-            .spawn(move || {
+        let handle = crate::spawn_os_thread(format!("sim-{}", name), 1 << 20, move || {
                 CUR.with(|c| {
                     *c.borrow_mut() = Some(Cur {
                         world: world.clone(),
@@ -532,8 +548,7 @@ impl World {
                 CUR.with(|c| *c.borrow_mut() = None);
                 world.thread_finished(tid, end);
                 world.driver_gate.open();
-            })
-            .expect("spawn controlled thread");
+            });
         self.lock().threads[tid].join = Some(handle);
         tid
     }
@@ -609,6 +624,12 @@ impl World {
                 g.threads[tid].end = Some(end);
             }
             if let Some(p) = g.threads[tid].proc_ {
+                // every thread of the process goes with it
+                for t in g.threads.iter_mut() {
+                    if t.proc_ == Some(p) {
+                        t.dead = true;
+                    }
+                }
                 g.proc_gone(p, &mut wakers);
             }
         }
@@ -726,6 +747,11 @@ impl World {
                 let tid = g.procs[pidx].tid;
                 if tid != usize::MAX {
                     g.threads[tid].dead = true;
+                }
+                for t in g.threads.iter_mut() {
+                    if t.proc_ == Some(pidx) {
+                        t.dead = true;
+                    }
                 }
                 g.proc_gone(pidx, &mut wakers);
                 Ok(())
